@@ -20,6 +20,37 @@ class MixinB:
 '''
 
 
+def _class_path_collision(doc):
+    """do two different selection paths of the document spell the same result class name?  (names compared without case
+    and underscores: conservative)"""
+    try:
+        seen = {}
+
+        def walk(selection_set, defname, path):
+            for sel in selection_set.selections:
+                kind = type(sel).__name__
+                if kind == "FieldNode" and sel.selection_set is not None:
+                    key = sel.alias.value if sel.alias else sel.name.value
+                    new = path + (key,)
+                    norm = (defname + "".join(new)).lower().replace("_", "")
+                    if seen.setdefault(norm, (defname, new)) != (defname, new):
+                        return True
+                    if walk(sel.selection_set, defname, new):
+                        return True
+                elif kind == "InlineFragmentNode":
+                    if walk(sel.selection_set, defname, path):
+                        return True
+            return False
+
+        for definition in doc.definitions:
+            if getattr(definition, "name", None) is not None and getattr(definition, "selection_set", None) is not None:
+                if walk(definition.selection_set, definition.name.value, ()):
+                    return True
+        return False
+    except Exception:  # noqa: BLE001  never let the filter itself stop a case
+        return False
+
+
 def build(d, *, schema_kw=None, ops_kw=None, doc_kw=None, config=None, calls_per_op=2,
           mixins=False, omit_p=0.5, config_desc_fn=None, desc_hook=None, subscriptions_if_async=False):
     if subscriptions_if_async and (config or {}).get("async_client", True) and d.bool(0.5):
@@ -60,6 +91,9 @@ def build(d, *, schema_kw=None, ops_kw=None, doc_kw=None, config=None, calls_per
         return {"rejected": f"queries syntax: {exc}"[:300], "sdl": sdl, "queries": queries}
     if errs:
         return {"rejected": "queries invalid: " + errs[0].message[:200], "sdl": sdl, "queries": queries}
+    if _class_path_collision(doc) and not d.enabled("names.class_path_collision"):
+        # KF-C05-3: result classes are named <Definition><Key><Key>...; two different paths can spell the same name
+        return {"rejected": "two selection paths spell the same result class name (KF-C05-3)", "sdl": sdl, "queries": queries}
     calls = []
     for op in ops:
         for _ in range(calls_per_op):
